@@ -477,7 +477,7 @@ package lib
 //@   requires c2sw.RegistrationPayload.DisableRegistrarOverrides != nil ==> (*c2sw.RegistrationPayload.DisableRegistrarOverrides || !*c2sw.RegistrationPayload.DisableRegistrarOverrides)
 //@   let rr := c2sw.RegistrationResponse
 //@   ensures @C11: result1 == nil ==> result0 != nil
-//@   ensures @C10: result1 == nil ==> !(isV4(result0.PhantomIp) && !isV4(result0.registrationAddr)) && result0.registrationAddr == c2sw.RegistrationAddress
+//@   ensures @C10 @C07: result1 == nil ==> !(isV4(result0.PhantomIp) && !isV4(result0.registrationAddr)) && result0.registrationAddr == c2sw.RegistrationAddress
 //@   ensures @C12: result1 == nil && rr != nil && includeV6 && rr.Ipv6Addr != nil ==> result0.PhantomIp == rr.Ipv6Addr
 //@   ensures @C12: result1 == nil && rr != nil && !includeV6 && rr.Ipv4Addr != nil && *rr.Ipv4Addr != 0 ==> len(result0.PhantomIp) == 4
 //@   ensures @C12: result1 == nil && rr != nil && rr.DstPort != nil ==> result0.PhantomPort == *rr.DstPort % 65536
